@@ -25,10 +25,55 @@ def run(ck):
                  'S_sub(parse_footer) in c08_extension_flag_is_version3']
     ck.trusted += ['Kani 0.68 / CBMC 6.11', 'paper step: units = reference and composition = reference composition  =>  whole decoder = reference']
     hs = [H(n, cap=c, required=r, meaning=m, playback=n in ('c08_header', 'c08_layout_v1_blocks', 'c08_layout_v2_blocks', 'c08_records_min_v1', 'c08_records_min_v2', 'c08_records_two_v2', 'c08_records_leap_indicators_v2')) for n, c, r, m in UNITS]
-    kprop.run_harnesses(ck, hs)
+    kprop.run_harnesses(ck, hs, on_fail=lambda B, h: (footer_replay(ck, B, h) if h.name == 'c08_footer_framing' else kprop.playback_violation(ck, B, h) if h.playback_ok else ck.inconclusive.append(f'{h.name} FAILED: {h.failed_checks[:4]} (harness with abstracted callees: no native replay; unresolved)')))
     ck.functions += ['parse::tz_file::parse_header', 'read_data_blocks::<4>/<8>', 'DataBlocks::<4>/<8>::parse', 'parse_footer', 'parse_tz_file', 'parse::utils::{read_exact, read_chunk_exact}', 'LocalTimeType::new', 'TimeZone::new']
     ck.explanation = 'Whole-file harnesses do not finish (DESIGN.md C08); the decoder is verified as it is written: five units against an RFC 8536 reference typed in the harness, plus composition harnesses with abstracted callees.'
 
 
+def footer_reference(raw):
+    """verdict of RFC 8536 footer framing for ASCII bytes when it does not depend on the TZ-string grammar, else None"""
+    if not (len(raw) >= 1 and raw[:1] == b'\n' and raw[-1:] == b'\n'):
+        return 'err TzFile(InvalidFooter)'
+    t = raw.strip(b' \t\n\x0c\r')
+    if t[:1] == b':' or b'\0' in t:
+        return 'err TzFile(InvalidFooter)'
+    if t == b'':
+        return 'ok None'
+    return None
+
+
+def footer_replay(ck, B, h):
+    """c08_footer_framing abstracts the TZ-string decoder; replay the counterexample's footer bytes through the real decoder natively"""
+    vecs = B.playback(h)
+    if not vecs or len(vecs) < 7:
+        ck.inconclusive.append(f'{h.name} FAILED ({h.failed_checks[:3]}); concrete playback produced no values')
+        return
+    raw = bytes(v[0] for v in vecs[:6])[:engb_le(vecs[6])]
+    nat = common.Native()
+    for ext in (0, 1):
+        cmd = f'tzif_footer {raw.hex() or "-"} {ext}'
+        want = footer_reference(raw) if all(b < 0x80 for b in raw) else None
+        for o in nat.both([cmd])[0]:
+            if o.startswith('panic'):
+                ck.violation(f'{h.name}: a TZif file whose footer is {raw!r} makes the decoder panic: {o}', {'kind': 'footer', 'cmd': cmd, 'raw': raw.hex()})
+                return
+            if want and o != want:
+                ck.violation(f'{h.name}: footer {raw!r}: decoder says {o!r}, RFC 8536 framing prescribes {want!r}', {'kind': 'footer', 'cmd': cmd, 'raw': raw.hex()})
+                return
+    ck.inconclusive.append(f'{h.name} FAILED ({h.failed_checks[:3]}) but the footer {raw!r} is decoded as prescribed natively (stub contract problem?)')
+
+
+def engb_le(v):
+    return int.from_bytes(bytes(v), 'little')
+
+
 def replay(ck, case):
+    c = case['case']
+    if c.get('kind') == 'footer':
+        nat = common.Native()
+        raw = bytes.fromhex(c['raw'])
+        out = nat.both([c['cmd']])[0]
+        want = footer_reference(raw)
+        print(out, want)
+        return 1 if any(o.startswith('panic') or (want and o != want) for o in out) else 0
     return kprop.replay_playback(ck, case)
